@@ -117,7 +117,7 @@ class GridWorldSimulation(AgentBasedSimulation, ABC):
         """
         assert type(array) is np.ndarray, "The array must be a numpy array."
         assert type(object_registry) is dict, "The object_registry must be a dictionary."
-        assert all([i not in object_registry for i in [0, '.', '_']]), \
+        assert all([i not in object_registry for i in [0, '0', '.', '_']]), \
             "0, '.', and '_' are reserved for empty space."
         if extra_agents is not None:
             # We only check if it is a dictionary because that is the requirement
@@ -170,7 +170,7 @@ class GridWorldSimulation(AgentBasedSimulation, ABC):
         """
         assert type(file_name) is str, "The file_name must be the name of the file."
         assert type(object_registry) is dict, "The object_registry must be a dictionary."
-        assert all([i not in object_registry for i in [0, '.', '_']]), \
+        assert all([i not in object_registry for i in [0, '0', '.', '_']]), \
             "0, '.', and '_' are reserved for empty space."
         if extra_agents is not None:
             # We only check if it is a dictionary because that is the requirement
